@@ -23,6 +23,9 @@ RULE = (
     'eligible and ineligible connections around and more queued tasks than '
     'eligible workers, or a life-cycle change between a join and a tick. '
     'Distinct = SHA-1 of case JSON.'
+    ' Part runid: a real shelve store holding results under generated run I'
+    'Ds (0..12, 98..101, 999, 1000); farm.rerunid for an event without run '
+    'ID must return max+1. '
 )
 ASSUMPTIONS = [
     'one register message per worker connection (what worker.cluster.execute '
